@@ -103,6 +103,12 @@ impl HuffTable {
 pub enum Segment {
     /// APPn with raw payload (marker 0xe0..=0xef)
     App(u8, Vec<u8>),
+    /// APP2 "ICC_PROFILE" chunk: this part of the profile (chunk index / count follow from the layout)
+    Icc(Vec<u8>),
+    /// APP1 "Exif\0\0" + payload (TIFF data)
+    Exif(Vec<u8>),
+    /// APP1 "http://ns.adobe.com/xap/1.0/\0" + payload
+    Xmp(Vec<u8>),
     Com(Vec<u8>),
     Dqt,
     Sof,
@@ -132,6 +138,37 @@ pub struct JpegSpec {
     pub tail: Vec<u8>,
     /// (block index in scan order, number of explicit ZRL symbols written in front of its EOB)
     pub extra_zrl: Vec<(usize, usize)>,
+    /// scan script; empty = one baseline scan of all components (the n-th `Segment::Sos` writes scan n)
+    pub scans: Vec<Scan>,
+    /// SOF2 (progressive) instead of SOF0
+    pub progressive: bool,
+    /// component identifiers in SOF / SOS; empty = 1, 2, 3 (or 1 for grey)
+    pub comp_ids: Vec<u8>,
+    /// sampling factors (H, V) per component; empty = 1x1 everywhere.  `coef[c]` is then laid out on
+    /// the component's padded block grid `comp_grid(c)`.  Needs scripted scans.
+    pub samp: Vec<(usize, usize)>,
+}
+
+/// One scan of a scripted JPEG.
+#[derive(Clone, Debug)]
+pub struct Scan {
+    /// component indices, in scan order
+    pub comps: Vec<usize>,
+    pub ss: u8,
+    pub se: u8,
+    pub ah: u8,
+    pub al: u8,
+    /// progressive AC scans: the pending end-of-band run is written out before these blocks
+    /// (block index in scan order) instead of being extended; recorded as reset points
+    pub flush_before: Vec<usize>,
+}
+
+#[derive(Clone, Debug)]
+enum Tok {
+    Dc { tbl: usize, sym: u8, bits: u32, n: u32 },
+    Ac { tbl: usize, sym: u8, bits: u32, n: u32 },
+    Raw { bits: u32, n: u32 },
+    Restart,
 }
 
 pub fn zigzag() -> [(usize, usize); 64] {
@@ -195,23 +232,303 @@ fn bitlen(v: i32) -> u32 {
     32 - (v.unsigned_abs()).leading_zeros()
 }
 
+/// Options of the VarDCT (JPEG-style) codestream writer.
+pub const APP_ICC_TAG: &[u8] = b"ICC_PROFILE\0";
+pub const APP_EXIF_TAG: &[u8] = b"Exif\0\0";
+pub const APP_XMP_TAG: &[u8] = b"http://ns.adobe.com/xap/1.0/\0";
+
+#[derive(Clone, Debug, Default)]
+pub struct StreamOpts {
+    /// ANS instead of prefix codes for the coefficient stream
+    pub ans: bool,
+    /// restoration filters: default Gabor + EPF, or Gabor + `epf_iters` iterations when non-zero
+    pub filters: bool,
+    pub epf_iters: u32,
+    /// image is `cw x ch` and the frame is cropped at `(x0, y0)`
+    pub canvas: Option<(u32, u32, i32, i32)>,
+    pub no_ycbcr: bool,
+    /// noise parameters (8 x 10 bit) and the kNoise frame flag
+    pub noise: Option<[u32; 8]>,
+    /// frame upsampling factor 1 / 2 / 4 / 8 (the image is that much larger)
+    pub upsampling: u32,
+    /// encoded ICC stream (output of `icc::write_icc_stream`) to embed; sets want_icc
+    pub icc_stream: Option<BitWriter>,
+}
+
 impl JpegSpec {
+    pub fn hv(&self, c: usize) -> (usize, usize) {
+        self.samp.get(c).copied().unwrap_or((1, 1))
+    }
+    pub fn hv_max(&self) -> (usize, usize) {
+        (0..self.ncomp).map(|c| self.hv(c)).fold((1, 1), |a, b| (a.0.max(b.0), a.1.max(b.1)))
+    }
+    /// number of MCUs of an interleaved scan, horizontally and vertically
+    pub fn mcus(&self) -> (usize, usize) {
+        let (hm, vm) = self.hv_max();
+        ((self.w + 8 * hm - 1) / (8 * hm), (self.h + 8 * vm - 1) / (8 * vm))
+    }
+    /// block grid of component c including the blocks that only exist to fill the last MCUs
+    pub fn comp_grid(&self, c: usize) -> (usize, usize) {
+        let (mw, mh) = self.mcus();
+        let (h, v) = self.hv(c);
+        (mw * h, mh * v)
+    }
+    /// blocks of component c that cover its samples (what a non-interleaved scan codes)
+    pub fn comp_blocks_real(&self, c: usize) -> (usize, usize) {
+        let (hm, vm) = self.hv_max();
+        let (h, v) = self.hv(c);
+        let cw = (self.w * h + hm - 1) / hm;
+        let ch = (self.h * v + vm - 1) / vm;
+        ((cw + 7) / 8, (ch + 7) / 8)
+    }
+    /// full-resolution block grid (padded to whole MCUs)
     pub fn blocks_w(&self) -> usize {
-        (self.w + 7) / 8
+        self.mcus().0 * self.hv_max().0
     }
     pub fn blocks_h(&self) -> usize {
-        (self.h + 7) / 8
+        self.mcus().1 * self.hv_max().1
+    }
+    /// Blocks of a scan in coding order: (first block of an MCU?, component, index into `coef[c]`).
+    fn scan_blocks(&self, comps: &[usize]) -> Vec<(bool, usize, usize)> {
+        let mut out = vec![];
+        if comps.len() > 1 {
+            let (mw, mh) = self.mcus();
+            for my in 0..mh {
+                for mx in 0..mw {
+                    let mut first = true;
+                    for &c in comps {
+                        let (h, v) = self.hv(c);
+                        let gw = self.comp_grid(c).0;
+                        for dy in 0..v {
+                            for dx in 0..h {
+                                out.push((first, c, (my * v + dy) * gw + mx * h + dx));
+                                first = false;
+                            }
+                        }
+                    }
+                }
+            }
+        } else {
+            let c = comps[0];
+            let gw = self.comp_grid(c).0;
+            let (rw, rh) = self.comp_blocks_real(c);
+            for y in 0..rh {
+                for x in 0..rw {
+                    out.push((true, c, y * gw + x));
+                }
+            }
+        }
+        out
+    }
+
+    fn comp_id(&self, c: usize) -> u8 {
+        self.comp_ids.get(c).copied().unwrap_or(c as u8 + 1)
+    }
+
+    /// Entropy-coding events of one scripted scan (sequential or progressive), per ITU-T T.81 F.1.2 / G.1.2.
+    fn scan_tokens(&self, sc: &Scan) -> Vec<Tok> {
+        let nb = self.blocks_w() * self.blocks_h();
+        let mut t: Vec<Tok> = vec![];
+        let mut pred = vec![0i32; self.ncomp];
+        let vbits = |v: i32, size: u32| -> u32 { if v < 0 { (v + (1 << size) - 1) as u32 } else { v as u32 } };
+        // progressive AC state
+        let mut eobrun: u32 = 0;
+        let mut be: Vec<u32> = vec![]; // buffered correction bits belonging to the pending EOB run
+        let mut last_ac_tbl = 0usize;
+        fn emit_eobrun(t: &mut Vec<Tok>, eobrun: &mut u32, be: &mut Vec<u32>, tbl: usize) {
+            if *eobrun > 0 {
+                let nbits = 31 - eobrun.leading_zeros();
+                t.push(Tok::Ac { tbl, sym: (nbits << 4) as u8, bits: *eobrun & ((1 << nbits) - 1), n: nbits });
+                *eobrun = 0;
+                for b in be.drain(..) {
+                    t.push(Tok::Raw { bits: b, n: 1 });
+                }
+            }
+        }
+        let _ = nb;
+        let mut mcu_count = 0usize;
+        for (this_block, (mcu_start, c, bi)) in self.scan_blocks(&sc.comps).into_iter().enumerate() {
+            if mcu_start {
+                if self.restart_interval > 0 && mcu_count > 0 && mcu_count as u32 % self.restart_interval == 0 {
+                    emit_eobrun(&mut t, &mut eobrun, &mut be, last_ac_tbl);
+                    t.push(Tok::Restart);
+                    pred.iter_mut().for_each(|p| *p = 0);
+                }
+                mcu_count += 1;
+            }
+            {
+                let blk = &self.coef[c][bi];
+                let (dt, at) = self.comp_tbl[c];
+                if !self.progressive {
+                    // sequential: DC difference, then run/size pairs, EOB
+                    let diff = blk[0] - pred[c];
+                    pred[c] = blk[0];
+                    let size = bitlen(diff);
+                    t.push(Tok::Dc { tbl: dt, sym: size as u8, bits: vbits(diff, size), n: size });
+                    let last_nz = (1..64).rev().find(|&k| blk[k] != 0).unwrap_or(0);
+                    let mut run = 0u32;
+                    for k in 1..=last_nz {
+                        if blk[k] == 0 {
+                            run += 1;
+                            continue;
+                        }
+                        while run >= 16 {
+                            t.push(Tok::Ac { tbl: at, sym: 0xf0, bits: 0, n: 0 });
+                            run -= 16;
+                        }
+                        let size = bitlen(blk[k]);
+                        t.push(Tok::Ac { tbl: at, sym: ((run << 4) | size) as u8, bits: vbits(blk[k], size), n: size });
+                        run = 0;
+                    }
+                    if last_nz < 63 {
+                        t.push(Tok::Ac { tbl: at, sym: 0, bits: 0, n: 0 });
+                    }
+                    continue;
+                }
+                let al = sc.al as u32;
+                if sc.ss == 0 {
+                    // DC scan (may be interleaved)
+                    let v = blk[0] >> al; // arithmetic shift (point transform)
+                    if sc.ah == 0 {
+                        let diff = v - pred[c];
+                        pred[c] = v;
+                        let size = bitlen(diff);
+                        t.push(Tok::Dc { tbl: dt, sym: size as u8, bits: vbits(diff, size), n: size });
+                    } else {
+                        t.push(Tok::Raw { bits: (v & 1) as u32, n: 1 });
+                    }
+                    continue;
+                }
+                // AC scan: one component, band ss..=se
+                if sc.flush_before.contains(&this_block) {
+                    emit_eobrun(&mut t, &mut eobrun, &mut be, last_ac_tbl);
+                }
+                if eobrun == 0 {
+                    last_ac_tbl = at;
+                }
+                let (ss, se) = (sc.ss as usize, sc.se as usize);
+                if sc.ah == 0 {
+                    let mut r = 0u32;
+                    for k in ss..=se {
+                        let mag = (blk[k].unsigned_abs() >> al) as i32;
+                        if mag == 0 {
+                            r += 1;
+                            continue;
+                        }
+                        emit_eobrun(&mut t, &mut eobrun, &mut be, last_ac_tbl);
+                        last_ac_tbl = at;
+                        while r > 15 {
+                            t.push(Tok::Ac { tbl: at, sym: 0xf0, bits: 0, n: 0 });
+                            r -= 16;
+                        }
+                        let size = bitlen(mag);
+                        let bits = if blk[k] < 0 { (!mag as u32) & ((1 << size) - 1) } else { mag as u32 };
+                        t.push(Tok::Ac { tbl: at, sym: ((r << 4) | size) as u8, bits, n: size });
+                        r = 0;
+                    }
+                    if r > 0 {
+                        eobrun += 1;
+                        if eobrun == 0x7fff {
+                            emit_eobrun(&mut t, &mut eobrun, &mut be, last_ac_tbl);
+                        }
+                    }
+                } else {
+                    // refinement: coefficients already non-zero send one correction bit, newly non-zero
+                    // ones (magnitude exactly 1 after the point transform) a run/1 symbol and a sign bit
+                    let abs: Vec<u32> = (0..64).map(|k| blk[k].unsigned_abs() >> al).collect();
+                    let eob = (ss..=se).rev().find(|&k| abs[k] == 1).unwrap_or(0);
+                    let mut r = 0u32;
+                    let mut br: Vec<u32> = vec![];
+                    for k in ss..=se {
+                        if abs[k] == 0 {
+                            r += 1;
+                            continue;
+                        }
+                        while r > 15 && k <= eob {
+                            emit_eobrun(&mut t, &mut eobrun, &mut be, last_ac_tbl);
+                            last_ac_tbl = at;
+                            t.push(Tok::Ac { tbl: at, sym: 0xf0, bits: 0, n: 0 });
+                            r -= 16;
+                            for b in br.drain(..) {
+                                t.push(Tok::Raw { bits: b, n: 1 });
+                            }
+                        }
+                        if abs[k] > 1 {
+                            br.push(abs[k] & 1);
+                            continue;
+                        }
+                        emit_eobrun(&mut t, &mut eobrun, &mut be, last_ac_tbl);
+                        last_ac_tbl = at;
+                        t.push(Tok::Ac { tbl: at, sym: ((r << 4) | 1) as u8, bits: if blk[k] < 0 { 0 } else { 1 }, n: 1 });
+                        for b in br.drain(..) {
+                            t.push(Tok::Raw { bits: b, n: 1 });
+                        }
+                        r = 0;
+                    }
+                    if r > 0 || !br.is_empty() {
+                        eobrun += 1;
+                        be.extend(br.drain(..));
+                        if eobrun == 0x7fff || be.len() > 937 {
+                            emit_eobrun(&mut t, &mut eobrun, &mut be, last_ac_tbl);
+                        }
+                    }
+                }
+            }
+        }
+        emit_eobrun(&mut t, &mut eobrun, &mut be, last_ac_tbl);
+        t
+    }
+
+    /// Replaces the Huffman tables by minimal ones built from the symbol statistics of all scripted
+    /// scans (progressive scans need end-of-band-run symbols that the standard tables do not have).
+    pub fn rebuild_tables_for_scans(&mut self) {
+        let mut dcu = vec![[0u64; 256]; self.dc_tables.len()];
+        let mut acu = vec![[0u64; 256]; self.ac_tables.len()];
+        for sc in &self.scans {
+            for tk in self.scan_tokens(sc) {
+                match tk {
+                    Tok::Dc { tbl, sym, .. } => dcu[tbl][sym as usize] += 1,
+                    Tok::Ac { tbl, sym, .. } => acu[tbl][sym as usize] += 1,
+                    _ => {}
+                }
+            }
+        }
+        self.dc_tables = dcu.iter().map(HuffTable::minimal).collect();
+        self.ac_tables = acu.iter().map(HuffTable::minimal).collect();
     }
 
     /// The JPEG file and the padding bits used (in order of the alignment events).
     pub fn write_jpeg(&self) -> (Vec<u8>, Vec<u8>) {
         let mut out = vec![0xff, 0xd8];
         let mut pad_bits_all = vec![];
+        let mut icc_seen = 0u8;
+        let mut scans_written = 0usize;
         for seg in &self.layout {
             match seg {
                 Segment::App(m, data) => {
                     out.extend_from_slice(&[0xff, *m]);
                     out.extend_from_slice(&((data.len() + 2) as u16).to_be_bytes());
+                    out.extend_from_slice(data);
+                }
+                Segment::Icc(data) => {
+                    let total = self.layout.iter().filter(|s| matches!(s, Segment::Icc(_))).count() as u8;
+                    icc_seen += 1;
+                    out.extend_from_slice(&[0xff, 0xe2]);
+                    out.extend_from_slice(&((data.len() + 2 + APP_ICC_TAG.len() + 2) as u16).to_be_bytes());
+                    out.extend_from_slice(APP_ICC_TAG);
+                    out.extend_from_slice(&[icc_seen, total]);
+                    out.extend_from_slice(data);
+                }
+                Segment::Exif(data) => {
+                    out.extend_from_slice(&[0xff, 0xe1]);
+                    out.extend_from_slice(&((data.len() + 2 + APP_EXIF_TAG.len()) as u16).to_be_bytes());
+                    out.extend_from_slice(APP_EXIF_TAG);
+                    out.extend_from_slice(data);
+                }
+                Segment::Xmp(data) => {
+                    out.extend_from_slice(&[0xff, 0xe1]);
+                    out.extend_from_slice(&((data.len() + 2 + APP_XMP_TAG.len()) as u16).to_be_bytes());
+                    out.extend_from_slice(APP_XMP_TAG);
                     out.extend_from_slice(data);
                 }
                 Segment::Com(data) => {
@@ -242,9 +559,10 @@ impl JpegSpec {
                     s.extend_from_slice(&(self.w as u16).to_be_bytes());
                     s.push(self.ncomp as u8);
                     for c in 0..self.ncomp {
-                        s.extend_from_slice(&[c as u8 + 1, 0x11, self.comp_q[c] as u8]);
+                        let (hh, vv) = self.hv(c);
+                        s.extend_from_slice(&[self.comp_id(c), ((hh << 4) | vv) as u8, self.comp_q[c] as u8]);
                     }
-                    out.extend_from_slice(&[0xff, 0xc0]);
+                    out.extend_from_slice(&[0xff, if self.progressive { 0xc2 } else { 0xc0 }]);
                     out.extend_from_slice(&((s.len() + 2) as u16).to_be_bytes());
                     out.extend_from_slice(&s);
                 }
@@ -268,10 +586,49 @@ impl JpegSpec {
                     out.extend_from_slice(&[0xff, 0xdd, 0, 4]);
                     out.extend_from_slice(&(self.restart_interval as u16).to_be_bytes());
                 }
+                Segment::Sos if !self.scans.is_empty() => {
+                    let sc = &self.scans[scans_written];
+                    scans_written += 1;
+                    let mut s = vec![sc.comps.len() as u8];
+                    for &c in &sc.comps {
+                        s.extend_from_slice(&[self.comp_id(c), ((self.comp_tbl[c].0 as u8) << 4) | self.comp_tbl[c].1 as u8]);
+                    }
+                    s.extend_from_slice(&[sc.ss, sc.se, (sc.ah << 4) | sc.al]);
+                    out.extend_from_slice(&[0xff, 0xda]);
+                    out.extend_from_slice(&((s.len() + 2) as u16).to_be_bytes());
+                    out.extend_from_slice(&s);
+                    let dc_codes: Vec<_> = self.dc_tables.iter().map(|t| t.codes()).collect();
+                    let ac_codes: Vec<_> = self.ac_tables.iter().map(|t| t.codes()).collect();
+                    let mut bw = MsbWriter { out: vec![], cur: 0, n: 0, pad_bits: vec![] };
+                    let mut rst = 0u8;
+                    for tk in self.scan_tokens(sc) {
+                        match tk {
+                            Tok::Dc { tbl, sym, bits, n } => {
+                                let (code, len) = dc_codes[tbl][sym as usize].expect("DC symbol has no code");
+                                bw.put(code, len as u32);
+                                bw.put(bits, n);
+                            }
+                            Tok::Ac { tbl, sym, bits, n } => {
+                                let (code, len) = ac_codes[tbl][sym as usize].expect("AC symbol has no code");
+                                bw.put(code, len as u32);
+                                bw.put(bits, n);
+                            }
+                            Tok::Raw { bits, n } => bw.put(bits, n),
+                            Tok::Restart => {
+                                bw.align(self.pad_bit);
+                                bw.out.extend_from_slice(&[0xff, 0xd0 + rst]);
+                                rst = (rst + 1) % 8;
+                            }
+                        }
+                    }
+                    bw.align(self.pad_bit);
+                    out.extend_from_slice(&bw.out);
+                    pad_bits_all.extend_from_slice(&bw.pad_bits);
+                }
                 Segment::Sos => {
                     let mut s = vec![self.ncomp as u8];
                     for c in 0..self.ncomp {
-                        s.extend_from_slice(&[c as u8 + 1, ((self.comp_tbl[c].0 as u8) << 4) | self.comp_tbl[c].1 as u8]);
+                        s.extend_from_slice(&[self.comp_id(c), ((self.comp_tbl[c].0 as u8) << 4) | self.comp_tbl[c].1 as u8]);
                     }
                     s.extend_from_slice(&[0, 63, 0]);
                     out.extend_from_slice(&[0xff, 0xda]);
@@ -356,9 +713,11 @@ impl JpegSpec {
         for seg in &self.layout {
             let m: u8 = match seg {
                 Segment::App(m, _) => *m,
+                Segment::Icc(_) => 0xe2,
+                Segment::Exif(_) | Segment::Xmp(_) => 0xe1,
                 Segment::Com(_) => 0xfe,
                 Segment::Dqt => 0xdb,
-                Segment::Sof => 0xc0,
+                Segment::Sof => if self.progressive { 0xc2 } else { 0xc0 },
                 Segment::Dht => 0xc4,
                 Segment::Dri => 0xdd,
                 Segment::Sos => 0xda,
@@ -367,12 +726,30 @@ impl JpegSpec {
         }
         b.write(6, 0xd9 - 0xc0);
         for seg in &self.layout {
-            if let Segment::App(m, data) = seg {
-                b.u32([D::Val(0), D::Val(1), D::BitsOffset(1, 2), D::BitsOffset(2, 4)], 0);
-                b.write(16, (data.len() + 3 - 1) as u64);
-                app_data.push(*m);
-                app_data.extend_from_slice(&((data.len() + 2) as u16).to_be_bytes());
-                app_data.extend_from_slice(data);
+            let ty_sel = [D::Val(0), D::Val(1), D::BitsOffset(1, 2), D::BitsOffset(2, 4)];
+            match seg {
+                Segment::App(m, data) => {
+                    b.u32(ty_sel, 0);
+                    b.write(16, (data.len() + 3 - 1) as u64);
+                    app_data.push(*m);
+                    app_data.extend_from_slice(&((data.len() + 2) as u16).to_be_bytes());
+                    app_data.extend_from_slice(data);
+                }
+                // typed markers: the payload lives in the codestream's ICC / the Exif box / the xml box;
+                // the coded length is the JPEG segment length field
+                Segment::Icc(data) => {
+                    b.u32(ty_sel, 1);
+                    b.write(16, (data.len() + 2 + APP_ICC_TAG.len() + 2) as u64);
+                }
+                Segment::Exif(data) => {
+                    b.u32(ty_sel, 2);
+                    b.write(16, (data.len() + 2 + APP_EXIF_TAG.len()) as u64);
+                }
+                Segment::Xmp(data) => {
+                    b.u32(ty_sel, 3);
+                    b.write(16, (data.len() + 2 + APP_XMP_TAG.len()) as u64);
+                }
+                _ => {}
             }
         }
         for seg in &self.layout {
@@ -388,8 +765,19 @@ impl JpegSpec {
             b.write(2, i as u64);
             b.bool(i + 1 == self.quant.len());
         }
-        // component type: 0 = gray (id 1), 1 = YCbCr (ids 1,2,3)
-        b.write(2, if self.ncomp == 1 { 0 } else { 1 });
+        // component type: 0 = gray (id 1), 1 = YCbCr (ids 1,2,3), 3 = explicit ids
+        let ids: Vec<u8> = (0..self.ncomp).map(|c| self.comp_id(c)).collect();
+        if ids == [1] {
+            b.write(2, 0);
+        } else if ids == [1, 2, 3] {
+            b.write(2, 1);
+        } else {
+            b.write(2, 3);
+            b.write(2, (self.ncomp - 1) as u64);
+            for &i in &ids {
+                b.write(8, i as u64);
+            }
+        }
         for c in 0..self.ncomp {
             b.write(2, self.comp_q[c] as u64);
         }
@@ -414,20 +802,43 @@ impl JpegSpec {
                 b.u32([D::Bits(2), D::BitsOffset(2, 4), D::BitsOffset(4, 8), D::BitsOffset(8, 1)], v);
             }
         }
-        // scan info (one baseline scan with all components)
-        b.write(2, (self.ncomp - 1) as u64);
-        b.write(6, 0);
-        b.write(6, 63);
-        b.write(4, 0);
-        b.write(4, 0);
-        for c in 0..self.ncomp {
-            b.write(2, c as u64);
-            b.write(2, self.comp_tbl[c].1 as u64);
-            b.write(2, self.comp_tbl[c].0 as u64);
+        let legacy = [Scan { comps: (0..self.ncomp).collect(), ss: 0, se: 63, ah: 0, al: 0, flush_before: vec![] }];
+        let scans: &[Scan] = if self.scans.is_empty() { &legacy } else { &self.scans };
+        for sc in scans {
+            b.write(2, (sc.comps.len() - 1) as u64);
+            b.write(6, sc.ss as u64);
+            b.write(6, sc.se as u64);
+            b.write(4, sc.al as u64);
+            b.write(4, sc.ah as u64);
+            for &c in &sc.comps {
+                b.write(2, c as u64);
+                b.write(2, self.comp_tbl[c].1 as u64);
+                b.write(2, self.comp_tbl[c].0 as u64);
+            }
+            b.u32([D::Val(0), D::Val(1), D::Val(2), D::BitsOffset(3, 3)], 0);
         }
-        b.u32([D::Val(0), D::Val(1), D::Val(2), D::BitsOffset(3, 3)], 0);
         if self.layout.iter().any(|s| matches!(s, Segment::Dri)) {
             b.write(16, self.restart_interval as u64);
+        }
+        // scan more info of scripted scans: reset points (sorted, delta coded), no extra zero runs
+        for sc in &self.scans {
+            let mut rp = sc.flush_before.clone();
+            rp.sort();
+            rp.dedup();
+            b.u32([D::Val(0), D::BitsOffset(2, 1), D::BitsOffset(4, 4), D::BitsOffset(16, 20)], rp.len() as u32);
+            let mut last: Option<usize> = None;
+            for bi in rp {
+                let delta = match last {
+                    None => bi,
+                    Some(l) => bi - l - 1,
+                };
+                b.u32([D::Val(0), D::BitsOffset(3, 1), D::BitsOffset(5, 9), D::BitsOffset(28, 41)], delta as u32);
+                last = Some(bi);
+            }
+            b.u32([D::Val(0), D::BitsOffset(2, 1), D::BitsOffset(4, 4), D::BitsOffset(16, 20)], 0);
+        }
+        if !self.scans.is_empty() {
+            return self.finish_jbrd(b, app_data, com_data, pad_bits);
         }
         // scan more info: no reset points; explicit zero runs in front of EOB
         b.u32([D::Val(0), D::BitsOffset(2, 1), D::BitsOffset(4, 4), D::BitsOffset(16, 20)], 0);
@@ -444,6 +855,10 @@ impl JpegSpec {
             b.u32([D::Val(0), D::BitsOffset(3, 1), D::BitsOffset(5, 9), D::BitsOffset(28, 41)], delta as u32);
             last = Some(bi);
         }
+        self.finish_jbrd(b, app_data, com_data, pad_bits)
+    }
+
+    fn finish_jbrd(&self, mut b: BitWriter, app_data: Vec<u8>, com_data: Vec<u8>, pad_bits: &[u8]) -> Vec<u8> {
         // (no intermarker data)
         b.u32([D::Val(0), D::BitsOffset(8, 1), D::BitsOffset(16, 257), D::BitsOffset(22, 65793)], self.tail.len() as u32);
         let non_default_padding = pad_bits.iter().any(|&x| x != 1);
@@ -475,14 +890,27 @@ impl JpegSpec {
     /// As `write_codestream_opts`; with `canvas = Some((cw, ch, x0, y0))` the image is cw x ch and the
     /// (single, last) frame is a cropped frame of this spec's size placed at (x0, y0).
     pub fn write_codestream_cropped(&self, ans: bool, filters: bool, epf_iters: u32, canvas: Option<(u32, u32, i32, i32)>, ycbcr: bool) -> Vec<u8> {
+        self.write_codestream_with(&StreamOpts { ans, filters, epf_iters, canvas, no_ycbcr: !ycbcr, ..Default::default() })
+    }
+
+    /// General form: see `StreamOpts`.
+    pub fn write_codestream_with(&self, o: &StreamOpts) -> Vec<u8> {
         use crate::headers::*;
+        let StreamOpts { ans, filters, epf_iters, canvas, .. } = *o;
+        let ycbcr = !o.no_ycbcr;
         let zz = zigzag();
         let (bw, bh) = (self.blocks_w(), self.blocks_h());
         let nb = bw * bh;
         assert!(self.w <= 256 && self.h <= 256, "single group only");
-        let (cw, ch) = canvas.map(|c| (c.0, c.1)).unwrap_or((self.w as u32, self.h as u32));
+        let up = o.upsampling.max(1);
+        assert!(up == 1 || canvas.is_none(), "upsampling is only written for uncropped frames");
+        let (cw, ch) = canvas.map(|c| (c.0, c.1)).unwrap_or((self.w as u32 * up, self.h as u32 * up));
         let mut img = ImageHeader::simple(cw, ch, false, 8);
         img.modular_16bit_buffers = true;
+        if let Some(icc) = &o.icc_stream {
+            img.colour_encoding = ColourEncoding { all_default: false, want_icc: true, ..ColourEncoding::srgb() };
+            img.icc_stream = Some(icc.clone());
+        }
         let mut fh = FrameHeader::modular_lossless(&img);
         if let Some((_, _, x0, y0)) = canvas {
             fh.have_crop = true;
@@ -492,8 +920,21 @@ impl JpegSpec {
             fh.height = self.h as u32;
         }
         fh.encoding = ENC_VARDCT;
-        fh.flags = FLAG_SKIP_ADAPTIVE_LF_SMOOTHING;
+        fh.flags = FLAG_SKIP_ADAPTIVE_LF_SMOOTHING | if o.noise.is_some() { FLAG_NOISE } else { 0 };
         fh.do_ycbcr = ycbcr;
+        fh.upsampling = up;
+        if !self.samp.is_empty() {
+            assert!(ycbcr && self.ncomp == 3, "chroma subsampling needs YCbCr");
+            // coded in the codestream's channel order Cb, Y, Cr: 0 = 1x1, 1 = 2x2, 2 = 2x1, 3 = 1x2 samples per MCU
+            let mode = |c: usize| match self.hv(c) {
+                (1, 1) => 0,
+                (2, 2) => 1,
+                (2, 1) => 2,
+                (1, 2) => 3,
+                hv => panic!("sampling factors {hv:?} cannot be expressed"),
+            };
+            fh.jpeg_upsampling = [mode(1), mode(0), mode(2)];
+        }
         if filters {
             fh.restoration_filter = RestorationFilter::default_();
             if epf_iters != 0 {
@@ -518,8 +959,15 @@ impl JpegSpec {
                 _ => None,
             }
         };
+        let (hm, vm) = self.hv_max();
         let mut lf: Vec<Channel> = (0..3)
-            .map(|ch| Channel::from_fn(bw, bh, |x, y| comp_of_channel(ch).map(|c| self.coef[c][y * bw + x][0]).unwrap_or(0)))
+            .map(|ch| match comp_of_channel(ch) {
+                Some(c) => {
+                    let (gw, gh) = self.comp_grid(c);
+                    Channel::from_fn(gw, gh, |x, y| self.coef[c][y * gw + x][0])
+                }
+                None => Channel::new(bw, bh),
+            })
             .collect();
         let mut lf_syms = vec![];
         tokenize_channels(&mut lf, 0..3, 1, &tree, &wp, &mut lf_syms);
@@ -557,6 +1005,11 @@ impl JpegSpec {
 
         let mut s = BitWriter::new();
         // LfGlobal
+        if let Some(n) = &o.noise {
+            for &v in n {
+                s.write(10, v as u64);
+            }
+        }
         s.bool(true); // lf dequant all_default
         s.u32([D::BitsOffset(11, 1), D::BitsOffset(11, 2049), D::BitsOffset(12, 4097), D::BitsOffset(16, 8193)], 1); // global_scale
         s.u32([D::Val(16), D::BitsOffset(5, 1), D::BitsOffset(8, 1), D::BitsOffset(16, 1)], 16); // quant_lf
@@ -597,12 +1050,20 @@ impl JpegSpec {
         let nctx = 495 * 15;
         let mut hf_syms: Vec<Sym> = vec![];
         for blk in 0..nb {
+            let (bx, by) = (blk % bw, blk / bw);
             for ch in 0..3usize {
                 // channel order Y, X, B
                 let comp = comp_of_channel(ch);
                 let mut seq = [0i32; 63];
                 if let Some(c) = comp {
-                    let b = &self.coef[c][blk];
+                    // a subsampled channel has a block only at every (hs, vs)-th position
+                    let (h, v) = self.hv(c);
+                    let (hs, vs) = (hm / h, vm / v);
+                    if bx % hs != 0 || by % vs != 0 {
+                        continue;
+                    }
+                    let gw = self.comp_grid(c).0;
+                    let b = &self.coef[c][(by / vs) * gw + bx / hs];
                     // coefficient at natural position (x, y) is the JPEG coefficient at (col = y, row = x)
                     let mut k_of = [[0usize; 8]; 8];
                     for k in 0..64 {
@@ -640,14 +1101,55 @@ impl JpegSpec {
     }
 
     /// Container: ftyp, jbrd, jxlc (order selectable).
+    /// The ICC profile carried by the APP2 chunks (concatenated), if any.
+    pub fn icc_profile(&self) -> Option<Vec<u8>> {
+        let mut v = vec![];
+        let mut any = false;
+        for s in &self.layout {
+            if let Segment::Icc(d) = s {
+                any = true;
+                v.extend_from_slice(d);
+            }
+        }
+        any.then_some(v)
+    }
+
+    /// ftyp + jbrd + jxlc (either order) + Exif / xml boxes for typed APP1 segments; the ICC profile of
+    /// APP2 chunks goes into the codestream (`icc_stream` = its encoded form).  Returns (container, JPEG).
     pub fn write_container(&self, ans: bool, jbrd_first: bool) -> (Vec<u8>, Vec<u8>) {
+        self.write_container_icc(ans, jbrd_first, None)
+    }
+
+    pub fn write_container_icc(&self, ans: bool, jbrd_first: bool, icc_stream: Option<BitWriter>) -> (Vec<u8>, Vec<u8>) {
         let (jpeg, pads) = self.write_jpeg();
         let jbrd = self.write_jbrd(&pads);
-        let cs = self.write_codestream(ans);
+        assert_eq!(self.icc_profile().is_some(), icc_stream.is_some(), "ICC chunks need the encoded ICC stream");
+        let cs = self.write_codestream_with(&StreamOpts { ans, icc_stream, ..Default::default() });
         let ftyp = BoxSpec::new(b"ftyp", SizeForm::S32, &FTYP_PAYLOAD);
         let jb = BoxSpec::new(b"jbrd", SizeForm::S32, &jbrd);
         let jc = BoxSpec::new(b"jxlc", SizeForm::S32, &cs);
-        let boxes = if jbrd_first { vec![ftyp, jb, jc] } else { vec![ftyp, jc, jb] };
+        let mut meta = vec![];
+        for s in &self.layout {
+            match s {
+                Segment::Exif(d) => {
+                    let mut p = vec![0u8; 4]; // TIFF header offset
+                    p.extend_from_slice(d);
+                    meta.push(BoxSpec::new(b"Exif", SizeForm::S32, &p));
+                }
+                Segment::Xmp(d) => meta.push(BoxSpec::new(b"xml ", SizeForm::S32, d)),
+                _ => {}
+            }
+        }
+        let mut boxes = vec![ftyp];
+        if jbrd_first {
+            boxes.push(jb);
+            boxes.extend(meta);
+            boxes.push(jc);
+        } else {
+            boxes.push(jc);
+            boxes.push(jb);
+            boxes.extend(meta);
+        }
         (mux(&boxes), jpeg)
     }
 }
